@@ -19,7 +19,7 @@ WKWS = [{}, {}, {"version": 1.2}, {"version": 2.0}, {"wrap": True}, {"wrap": Fal
         {"fmt": "%.3f"}, {"fmt": "%.8f"}, {"fmt": "%.6e"}, {"mnemonics_header": True}, {"data_section_header": "~A"},
         {"len_numeric_field": -1}, {"spacer": "  ", "lhs_spacer": ""}, {"data_width": 40, "wrap": True}, {"header_width": 25},
         {"column_fmt": {"0": "%.2f"}}]
-ODD_UNITS = [".1IN", "0.1IN", "M", "", "US/F", "(m)", "[ft]", "m.", "K/M3", "DEG.C"]
+ODD_UNITS = [".1IN", "0.1IN", "M", "", "US/F", "(m)", "[ft]", "m.", "K/M3", "DEG.C", "in...", "(ohm..)", "m..", "ft....", "[m.]."]
 RKWS = [{}, {}, {"engine": "normal"}, {"mnemonic_case": "preserve"}, {"mnemonic_case": "lower"}, {"null_policy": "none"},
         {"ignore_header_errors": True}, {"mnemonic_case": "lower", "engine": "normal"}, {"index_unit": "m"}, {"dtypes": "auto"}]
 
@@ -47,7 +47,7 @@ def mutate_lines(g, lines):
     for _ in range(g.randint(1, 3)):
         i, sec = g.choice(hdr)
         ln = out[i]
-        kind = g.choice(["dup", "blank", "unit", "empty", "long"])
+        kind = g.choice(["dup", "blank", "unit", "empty", "long", "bare", "unit"])
         name, _, rest = ln.partition(".")
         if kind == "dup":
             out.insert(i + 1, ln)
@@ -57,11 +57,17 @@ def mutate_lines(g, lines):
             out[i] = " ." + rest
         elif kind == "unit":
             u = g.choice(ODD_UNITS)
+            if sec == "C" and (".." in u or u.endswith(".")) and u != "m.":
+                u = g.choice(ODD_UNITS[:10])          # in ~Curves '..' selects the mnemonic-with-dots reading (C04's special form)
+            if u.startswith(".") and not name.endswith(" "):
+                name = name + " "                     # a conformant file keeps 'MNEM' and '.1IN' apart
             body = rest.split(None, 1)
             tail = body[1] if len(body) > 1 and not rest[:1].isspace() else rest.lstrip()
             out[i] = "%s.%s   %s" % (name, u, tail)
         elif kind == "empty" and ":" in rest:
             out[i] = "%s.%s   : %s" % (name, rest.split()[0] if rest[:1].strip() else "", rest.rsplit(":", 1)[1].strip())
+        elif kind == "bare" and ":" in rest:
+            out[i] = "%s.   : %s" % (name, rest.rsplit(":", 1)[1].strip())         # neither unit nor value
         elif kind == "long" and ":" in rest:
             out[i] = ln.rstrip() + " " + "long " * g.randint(5, 30)
     return out
